@@ -645,4 +645,48 @@ Section GetRestores.
       destruct H as (H1 & H2 & H3 & H4 & H5 & H6 & H7 & H8 & H9 & H10 & H11 & H12 & H13 & H14 & H15 & H16 & H17).
       repeat split; assumption.
   Qed.
+
+  (* ---- round trip: what LIST.ADD took from literal stacks goes back where it was ---- *)
+  Lemma take_id_literal sid s :
+    literal_id sid = true ->
+    match take_id sid s with
+    | Some (x, s1) => exists v, x = ILit v /\ push_lit s1 v = s
+    | None => True
+    end.
+  Proof.
+    unfold literal_id. intro H.
+    repeat (apply orb_prop in H; destruct H as [H|H]); apply Z.eqb_eq in H; subst sid;
+      unfold take_id; cbv [BOOL_ID BVEC_ID CODE_ID EXEC_ID FLOAT_ID FVEC_ID INT_ID IVEC_ID NAME_ID Z.eqb Pos.eqb];
+      destruct s as [sb sc se sf six si sn sbv sfv siv sin sout sg sbd scf sq ssd];
+      cbn [st_bool st_float st_int st_bvec st_fvec st_ivec].
+    - destruct sb; [exact I|]. eexists; split; reflexivity.
+    - destruct sbv; [exact I|]. eexists; split; reflexivity.
+    - destruct sf; [exact I|]. eexists; split; reflexivity.
+    - destruct sfv; [exact I|]. eexists; split; reflexivity.
+    - destruct si; [exact I|]. eexists; split; reflexivity.
+    - destruct siv; [exact I|]. eexists; split; reflexivity.
+  Qed.
+
+  Lemma load_ids_literal ids : Forall (fun k => literal_id k = true) ids -> forall s,
+    exists lits, fst (load_ids ids s) = map ILit lits /\ push_lits (rev lits) (snd (load_ids ids s)) = s.
+  Proof.
+    induction 1 as [|sid r Hs Hr IH]; intro s.
+    - exists []. split; reflexivity.
+    - cbn [load_ids]. pose proof (take_id_literal sid s Hs) as HT.
+      destruct (take_id sid s) as [[x s1]|].
+      + destruct HT as [v [-> Hp]]. destruct (IH s1) as [lits [H1 H2]].
+        destruct (load_ids r s1) as [xs s2]. cbn [fst snd] in *.
+        exists (v :: lits). split; [cbn [map]; now rewrite H1|].
+        cbn [rev]. unfold push_lits in *. rewrite fold_left_app. cbn [fold_left]. now rewrite H2.
+      + apply IH.
+  Qed.
+
+  Lemma designate_literal_roundtrip_lemma ids s :
+    Forall (fun k => literal_id k = true) ids ->
+    exists lits, fst (designate ids s) = IList (map ILit lits) /\ push_lits lits (snd (designate ids s)) = s.
+  Proof.
+    intro H. destruct (load_ids_literal ids H s) as [lits [H1 H2]].
+    exists (rev lits). rewrite <- load_ids_designate. cbn [fst snd]. split; [|exact H2].
+    unfold mk_record. now rewrite H1, map_rev.
+  Qed.
 End GetRestores.
